@@ -124,10 +124,12 @@ theorem loadedInfo_deps (w : World) (l : Label) (d : Def) : (loadedInfo w l d).d
 
 /-- the record of a function target is marked `rerun`, and only files it owns differ: the invariant holds -/
 theorem dinv_marked {P : Params} {S : Shape} {t : Tree} {w w' : World} {G : Ghost} {l : Label} {d : Def}
-    (hc : Conforms S t) (hd : t.defs l = some d) (hk : d.kind = .fn) (di : DInv P S w G)
+    (hc : Conforms S t) (hd : t.defs l = some d) (hk : d.kind = .fn) (di : DInv P S w G) (hlr : ¬ G.retired l)
     (hrecs : w'.recs = upd w.recs l (some { loadedInfo w l d with rerun := true }))
     (hfiles : ∀ p, p ∉ d.gens → w'.files p = w.files p) : DInv P S w' G := by
   apply dinv_step (T := l) di (r' := { loadedInfo w l d with rerun := true })
+  · exact hlr
+  · intro x h; exact h
   · intro y hy; rw [hrecs]; simp [upd, hy]
   · rw [hrecs]; simp
   · intro p hp
@@ -141,15 +143,18 @@ theorem dinv_marked {P : Params} {S : Shape} {t : Tree} {w w' : World} {G : Ghos
   · simp [loadedInfo_runs]
   · intro x st h
     simp only [loadedInfo_deps] at h
-    have h1 : st.runs ≤ runsOf (w.recs x) := by
+    have h1 : st.runs ≤ runsOf (w.recs x) ∨ G.retired x := by
       cases hr : w.recs l with
       | none => rw [hr] at h; simp [emptyRec] at h
       | some r => rw [hr] at h; exact di.runs_le l r hr x st h
-    refine Nat.le_trans h1 ?_
-    rw [hrecs]
-    by_cases e : x = l
-    · subst e; simp [runsOf, loadedInfo_runs]
-    · simp [upd, e]
+    rcases h1 with h1 | h1
+    · left
+      refine Nat.le_trans h1 ?_
+      rw [hrecs]
+      by_cases e : x = l
+      · subst e; simp [runsOf, loadedInfo_runs]
+      · simp [upd, e]
+    · exact Or.inr h1
   · intro h; rw [← hc.kind l d hd, hk] at h; cases h
   · intro h; cases h
 
@@ -200,19 +205,21 @@ theorem execSteps_src_shape (P : Params) (t : Tree) (o : Opts) (w : World) (l : 
 /-- every prefix of the effects of one visit leaves a state that satisfies the persisted invariant -/
 theorem visit_prefix_dinv {P : Params} {S : Shape} {t : Tree} {o : Opts} {s : BSt} {G : Ghost} {l : Label}
     (hc : Conforms S t) (hinj : SumInj P) (hsr : P.stampRuns = true) (hmk : P.marker = true) (hdry : o.dry = false)
-    (di : DInv P S s.w G) (mi : MInv P S t s G) (ord : Order t s l) (j : Nat) :
-    ∃ G', DInv P S (applySteps s.w ((visitSteps P t o s l).take j)) G' := by
-  obtain ⟨Gv, div, _⟩ := visit_inv hc hinj hsr hdry di mi ord
+    (di : DInv P S s.w G) (mi : MInv P S t s G) (ord : Order t s l) (hret : ∀ x, G.retired x → t.defs x = none) (j : Nat) :
+    ∃ G', DInv P S (applySteps s.w ((visitSteps P t o s l).take j)) G' ∧ G'.retired = G.retired := by
+  obtain ⟨Gv, div, _, hrv⟩ := visit_inv hc hinj hsr hdry di mi ord hret
   have hfull := (visit_steps P t o s l).2
   unfold visitSteps at *
   cases hd : t.defs l with
-  | none => exact ⟨G, by simpa using di⟩
+  | none => exact ⟨G, by simpa using di, rfl⟩
   | some d =>
+    have hlr : ¬ G.retired l := by
+      intro h; have := hret l h; rw [hd] at this; cases this
     simp only [hd] at hfull ⊢
     cases hp : plan P t o s l d with
-    | depFailed _ => exact ⟨G, by simpa using di⟩
-    | skip _ => exact ⟨G, by simpa using di⟩
-    | dry _ => exact ⟨G, by simpa using di⟩
+    | depFailed _ => exact ⟨G, by simpa using di, rfl⟩
+    | skip _ => exact ⟨G, by simpa using di, rfl⟩
+    | dry _ => exact ⟨G, by simpa using di, rfl⟩
     | run info dd =>
       simp only [hp] at hfull ⊢
       obtain ⟨hinfo, _, _, _⟩ := plan_run hp
@@ -222,7 +229,7 @@ theorem visit_prefix_dinv {P : Params} {S : Shape} {t : Tree} {o : Opts} {s : BS
         rw [hshape] at hfull ⊢
         rcases take_append_cases [⟨none, .bodyBefore, l⟩, ⟨none, .bodyAfter, l⟩, ⟨none, .recordSuccess, l⟩] (saveSteps l r) j with h | ⟨i, h⟩
         · rw [h, applySteps_noEff]
-          · exact ⟨G, di⟩
+          · exact ⟨G, di, rfl⟩
           · intro st hst
             have := List.mem_of_mem_take hst
             simp only [List.mem_cons, List.not_mem_nil, or_false] at this
@@ -232,13 +239,13 @@ theorem visit_prefix_dinv {P : Params} {S : Shape} {t : Tree} {o : Opts} {s : BS
             simp only [List.mem_cons, List.not_mem_nil, or_false] at hst
             rcases hst with e | e | e <;> rw [e])]
           rcases save_prefix s.w l r i with hs | ⟨he, _⟩
-          · exact ⟨G, dinv_same di hs⟩
+          · exact ⟨G, dinv_same di hs, rfl⟩
           · rw [he]
             rw [applySteps_append, applySteps_noEff s.w _ (by
               intro st hst
               simp only [List.mem_cons, List.not_mem_nil, or_false] at hst
               rcases hst with e | e | e <;> rw [e])] at hfull
-            rw [← hfull]; exact ⟨Gv, div⟩
+            rw [← hfull]; exact ⟨Gv, div, hrv⟩
       | fn =>
         obtain ⟨mid, r, hmid, hshape⟩ := execSteps_fn_shape P t o s.w l d info dd hmk hk
         rw [hshape] at hfull ⊢
@@ -246,23 +253,23 @@ theorem visit_prefix_dinv {P : Params} {S : Shape} {t : Tree} {o : Opts} {s : BS
         rcases take_append_cases (saveSteps l { info with rerun := true }) (mid ++ saveSteps l r) j with h | ⟨i, h⟩
         · rw [h]
           rcases save_prefix s.w l { info with rerun := true } j with hs | ⟨_, he⟩
-          · exact ⟨G, dinv_same di hs⟩
+          · exact ⟨G, dinv_same di hs, rfl⟩
           · rw [he]
-            exact ⟨G, dinv_marked hc hd hk di (by simp [hminfo]) (fun _ _ => rfl)⟩
+            exact ⟨G, dinv_marked hc hd hk di hlr (by simp [hminfo]) (fun _ _ => rfl), rfl⟩
         · rw [h, applySteps_append, applySteps_save]
           rcases take_append_cases mid (saveSteps l r) i with h2 | ⟨i2, h2⟩
           · rw [h2]
             obtain ⟨o1, o2⟩ := onlyWrites_apply d _ (onlyWrites_take hmid i)
               ({ s.w with recs := upd s.w.recs l (some { info with rerun := true }) })
-            exact ⟨G, dinv_marked hc hd hk di (by rw [o1, hminfo]) (fun p hp => by rw [o2 p hp])⟩
+            exact ⟨G, dinv_marked hc hd hk di hlr (by rw [o1, hminfo]) (fun p hp => by rw [o2 p hp]), rfl⟩
           · rw [h2, applySteps_append]
             obtain ⟨o1, o2⟩ := onlyWrites_apply d _ hmid
               ({ s.w with recs := upd s.w.recs l (some { info with rerun := true }) })
             rcases save_prefix (applySteps { s.w with recs := upd s.w.recs l (some { info with rerun := true }) } mid) l r i2 with hs | ⟨he, _⟩
-            · exact ⟨G, dinv_marked hc hd hk di (by rw [hs.1, o1, hminfo]) (fun p hp => by rw [hs.2, o2 p hp])⟩
+            · exact ⟨G, dinv_marked hc hd hk di hlr (by rw [hs.1, o1, hminfo]) (fun p hp => by rw [hs.2, o2 p hp]), rfl⟩
             · rw [he]
               rw [applySteps_append, applySteps_save, applySteps_append] at hfull
-              rw [← hfull]; exact ⟨Gv, div⟩
+              rw [← hfull]; exact ⟨Gv, div, hrv⟩
 
 end Dawn.Build
 
@@ -271,27 +278,30 @@ namespace Dawn.Build
 theorem build_prefix_dinv {P : Params} {S : Shape} {t : Tree} {o : Opts}
     (hc : Conforms S t) (hinj : SumInj P) (hsr : P.stampRuns = true) (hmk : P.marker = true) (hdry : o.dry = false) :
     ∀ (ord : List Label) (s : BSt) (G : Ghost), DInv P S s.w G → MInv P S t s G → Ordered P t o s ord →
-      ∀ k, ∃ G', DInv P S (applySteps s.w ((buildSteps P t o s ord).take k)) G' := by
+      (∀ x, G.retired x → t.defs x = none) →
+      ∀ k, ∃ G', DInv P S (applySteps s.w ((buildSteps P t o s ord).take k)) G' ∧ G'.retired = G.retired := by
   intro ord
   induction ord with
-  | nil => intro s G di _ _ k; exact ⟨G, by simpa [buildSteps] using di⟩
+  | nil => intro s G di _ _ _ k; exact ⟨G, by simpa [buildSteps] using di, rfl⟩
   | cons l rest ih =>
-    intro s G di mi ho k
+    intro s G di mi ho hret k
     simp only [buildSteps]
     rcases take_append_cases (visitSteps P t o s l) (buildSteps P t o (visit P t o s l) rest) k with h | ⟨i, h⟩
     · rw [h]
-      exact visit_prefix_dinv hc hinj hsr hmk hdry di mi ho.1 k
+      exact visit_prefix_dinv hc hinj hsr hmk hdry di mi ho.1 hret k
     · rw [h, applySteps_append, ← (visit_steps P t o s l).2]
-      obtain ⟨G1, di1, mi1⟩ := visit_inv hc hinj hsr hdry di mi ho.1
-      exact ih _ G1 di1 mi1 ho.2 i
+      obtain ⟨G1, di1, mi1, hr1⟩ := visit_inv hc hinj hsr hdry di mi ho.1 hret
+      obtain ⟨G2, di2, hr2⟩ := ih _ G1 di1 mi1 ho.2 (by rw [hr1]; exact hret) i
+      exact ⟨G2, di2, by rw [hr2, hr1]⟩
 
 /-- C03: whatever hook point a build dies at, the persisted state satisfies the invariant -/
 theorem crash_dinv {P : Params} {S : Shape} {t : Tree} {o : Opts}
     (hc : Conforms S t) (hinj : SumInj P) (hsr : P.stampRuns = true) (hmk : P.marker = true) (hdry : o.dry = false)
-    (ord : List Label) (w : World) (G : Ghost) (di : DInv P S w G) (ho : Ordered P t o (BSt.init (load t w)) ord) (k : Nat) :
-    ∃ G', DInv P S (crashBuild P t o ord k w) G' := by
+    (ord : List Label) (w : World) (G : Ghost) (di : DInv P S w G) (ho : Ordered P t o (BSt.init (load t w)) ord)
+    (hret : ∀ x, G.retired x → t.defs x = none) (k : Nat) :
+    ∃ G', DInv P S (crashBuild P t o ord k w) G' ∧ G'.retired = G.retired := by
   rw [crashBuild_eq]
-  exact build_prefix_dinv hc hinj hsr hmk hdry ord (BSt.init (load t w)) G (dinv_load t di) (minv_init t _ G) ho k
+  exact build_prefix_dinv hc hinj hsr hmk hdry ord (BSt.init (load t w)) G (dinv_load t di) (minv_init t _ G) ho hret k
 
 /-- the load-time refresh and index rewrite, cut anywhere, keep the invariant too -/
 theorem crashLoad_dinv {P : Params} {S : Shape} (t : Tree) (w : World) (G : Ghost) (di : DInv P S w G) (k : Nat) :
